@@ -10,6 +10,9 @@ def plan(tier):
     conds.append(Cond("vf.h.h_osm", "h_snap", case=32, timeout=300, label="H13-snap[graph 2: parallel edges]", weight=3))
     for p in range(4):
         conds.append(Cond("vf.h.h_osm", "h_connected", case=32 + p, timeout=1200, env={"VF_SPEEDS": tier}, label=f"H13-connected[graph=2,pair={p}]", weight=10))
+    for case in (0, 1, 5, 7, 16, 17):
+        conds.append(Cond("vf.h.h_osm", "h_connected_warm", case=case, timeout=1200, env={"VF_SPEEDS": tier},
+                          label=f"H13-connected-after-earlier-query[graph={case // 16},pair={case % 16}]", weight=12))
     conds.append(Cond("vf.h.h_osm", "h_hav", case=0, timeout=300, label="H13-haversine", weight=3))
     return {
         "conds": conds,
